@@ -110,6 +110,11 @@ def statusTruthfulB (orig after : RPod) : Bool :=
   after.ctrNames.all (fun n => orig.ctrNames.contains n || (after.injC ++ after.injI).contains n) &&
   after.volNames.all (fun n => orig.volNames.contains n || after.injV.contains n)
 
+/-- No two containers of the pod (regular and init together) share a name - Kubernetes rejects such a pod. -/
+def nodupB : List String → Bool
+  | [] => true
+  | x :: xs => !xs.contains x && nodupB xs
+
 /-- The pod carried no record of an earlier injection (the clause `StatusTruthful orig once` applies to first injections). -/
 def RPod.fresh (p : RPod) : Bool := p.injC.isEmpty && p.injI.isEmpty && p.injV.isEmpty
 
@@ -161,6 +166,7 @@ def judgeMonitors (o : Obs) : Verdict :=
     else if !keepsInitsB a c then .fail "preserve-twice-inits"
     else if !keepsVolumesB a c then .fail "preserve-twice-volumes"
     else if !keepsReservedB a c then .fail "preserve-twice-reserved"
+    else if !(nodupB b.ctrNames && nodupB c.ctrNames) then .fail "duplicate-container-name"
     else if a.fresh && !statusTruthfulB a b then .fail "status-content"
     else if !idempotentB b c then .fail ("idempotent " ++ diffComponent b c)
     else .okInjected
